@@ -169,23 +169,8 @@ def gen_array(shape, dtype, key) -> np.ndarray:
 _BIDX = {"photon": 1, "charge": 2, "pixel": 3, "signal": 4, "image": 5}
 
 
-def writer(detector, **kwargs) -> None:
-    """Write the buckets named by plan[str(step)] (a list of bucket names).
-
-    Content: gen_array(shape, dtype, (seed, step, bucket)).  'pixel' and 'charge' are
-    *added* to (charge API only adds), everything else is assigned.
-    """
-    plan = kwargs.get("plan")
-    seed = kwargs.get("seed", 0)
-    dtypes = kwargs.get("dtypes") or {}
-    step = int(detector.pipeline_count)
-    names = (plan or {}).get(str(step), (plan or {}).get("*", []))
+def _do_write(detector, names, seed, dtypes, step) -> None:
     shape = detector.geometry.shape
-    ev = {"kind": "write", "model": detector.current_running_model_name, "det": id(detector),
-          "kwargs": copy.deepcopy(kwargs), "written": list(names)}
-    keep(detector)
-    ev.update(clock(detector))
-    emit(ev)
     for name in names:
         if name == "photon3d":
             import xarray as xr
@@ -202,6 +187,27 @@ def writer(detector, **kwargs) -> None:
             detector.charge.add_charge_array(arr.astype(float))
         else:
             getattr(detector, name).array = arr
+
+
+def _plan_names(kwargs, step):
+    plan = kwargs.get("plan") or {}
+    return plan.get(str(step), plan.get("*", []))
+
+
+def writer(detector, **kwargs) -> None:
+    """Write the buckets named by plan[str(step)] (a list of bucket names; "*" = every step).
+
+    Content: gen_array(shape, dtype, (seed, step, bucket)).  'charge' is added (the charge API
+    only adds), everything else is assigned.  The event records exactly the received kwargs.
+    """
+    step = int(detector.pipeline_count)
+    names = _plan_names(kwargs, step)
+    ev = {"kind": "write", "model": detector.current_running_model_name, "det": id(detector),
+          "kwargs": copy.deepcopy(kwargs), "written": list(names)}
+    keep(detector)
+    ev.update(clock(detector))
+    emit(ev)
+    _do_write(detector, names, kwargs.get("seed", 0), kwargs.get("dtypes") or {}, step)
 
 
 _KEEP: list = []  # strong references: id(detector) must stay unique within one case
@@ -234,16 +240,18 @@ def make_source(seed: int = 0):
 
 def writer2(detector, **kwargs) -> None:
     """Like writer, plus 'scene' (adds a source), 'data' (adds a processed-data array) and
-    'pixel+' (adds to the pixel array instead of assigning)."""
+    'pixel+' (adds to the pixel array in place instead of assigning)."""
     import xarray as xr
-    plan = kwargs.get("plan") or {}
     seed = kwargs.get("seed", 0)
     step = int(detector.pipeline_count)
-    names = plan.get(str(step), plan.get("*", []))
+    names = _plan_names(kwargs, step)
+    ev = {"kind": "write", "model": detector.current_running_model_name, "det": id(detector),
+          "kwargs": copy.deepcopy(kwargs), "written": list(names)}
+    keep(detector)
+    ev.update(clock(detector))
+    emit(ev)
     rest = [n for n in names if n not in ("scene", "data", "pixel+")]
-    sub = dict(kwargs)
-    sub["plan"] = {str(step): rest}
-    writer(detector, **sub)
+    _do_write(detector, rest, seed, kwargs.get("dtypes") or {}, step)
     if "scene" in names:
         detector.scene.add_source(make_source(seed * 1000 + step))
     if "data" in names:
